@@ -2082,7 +2082,7 @@ pub fn run(args: &Args) -> i32 {
         one_case(i, &mut r, args.thorough)
     });
     let _ = std::panic::take_hook();
-    let spec = Spec { prop: "C13", imports: &["Model.Encode", "Model.ResultDecode"], run_fn: "run_c13case", case_ty: "c13case", shard: 400 };
+    let spec = Spec { prop: "C13", imports: &["Model.Encode", "Model.ResultDecode"], run_fn: "run_c13case_fixed", case_ty: "c13case", shard: 400 };
     out::write_all(&args.out, &spec, &cases, &[]);
     0
 }
